@@ -87,22 +87,30 @@ def extract(F, root, extra_inline=(), depth=9):
 
 
 def name_squeezes(fl, tevents):
-    """map squeeze tag -> name of the innermost variable / struct field whose initialiser contains the squeeze call"""
+    """map squeeze tag -> set of names: the innermost variable whose initialiser contains the squeeze call, and the struct
+    field(s) whose value it ends in (renaming the local is not an alarm: the struct field of the challenges type still names it)"""
     from .facts import walk
     byid = {id(t.ev.node): t.tag for t in tevents if t.kind == 'sq'}
+    first = {}
     names = {}
 
     def scan(node, name):
         for x in walk(node):
             tg = byid.get(id(x))
-            if tg and tg not in names:
-                names[tg] = name
+            if tg and tg not in first:
+                first[tg] = name
+                names.setdefault(tg, set()).add(name)
     for e in fl.events:
         if e.kind == 'let' and e.extra and 'i' in e.node:
             scan(e.node['i'], e.extra[0])
         elif e.kind == 'struct':
             for f, ex in e.node['f']:
                 scan(ex, f)
+            # data flow: the newest squeeze tag in a field's value names that squeeze
+            for f, v in (e.val or {}).items():
+                tags = sorted(int(a[3:]) for a in flow.flat(v) if a.startswith('sq:'))
+                if tags:
+                    names.setdefault('sq:%d' % tags[-1], set()).add(f)
         elif e.kind == 'assign' and isinstance(e.extra, dict) and e.extra.get('k') == 'Local':
             scan(e.node['r'], e.extra['n'])
     return names
